@@ -141,7 +141,7 @@ pub enum RunKind {
     Long { calls: usize },
 }
 
-pub const FAULT_NAMES: [&str; 9] = [
+pub const FAULT_NAMES: [&str; 10] = [
     "F1_err_call",
     "F2_panic_call",
     "F3_placeholder_flip",
@@ -151,6 +151,7 @@ pub const FAULT_NAMES: [&str; 9] = [
     "F7_same_call_concurrent",
     "F8_clock_jump",
     "F9_caller_stack_depth",
+    "F10_cpu_affinity",
 ];
 
 fn pick_policy(r: &mut Rng, nthreads: usize, kind: RunKind, allow_intra: bool) -> Policy {
@@ -195,8 +196,9 @@ pub fn make_spec(pool: &Pool, ix: &PoolIndex, seed: u64, kind: RunKind, allow_in
     let f6 = r.chance(0.3);
     let f8 = r.chance(0.3);
     let f9 = r.chance(0.25);
+    let f10 = r.chance(0.2);
     let mut faults_enabled: Vec<&'static str> = Vec::new();
-    for (on, name) in [(f1, "F1"), (f2, "F2"), (f3, "F3+F7_theme"), (f4, "F4"), (f6, "F6"), (f8, "F8"), (f9, "F9")] {
+    for (on, name) in [(f1, "F1"), (f2, "F2"), (f3, "F3+F7_theme"), (f4, "F4"), (f6, "F6"), (f8, "F8"), (f9, "F9"), (f10, "F10")] {
         if on {
             faults_enabled.push(name);
         }
@@ -236,6 +238,7 @@ pub fn make_spec(pool: &Pool, ix: &PoolIndex, seed: u64, kind: RunKind, allow_in
     let mut churn: Vec<Vec<u32>> = Vec::new();
     let mut jumps: Vec<Vec<(u32, i64, i64)>> = Vec::new();
     let mut depths: Vec<Vec<(u32, u32)>> = Vec::new();
+    let mut cpus: Vec<u32> = Vec::new();
     for _t in 0..nthreads {
         let ncalls = match kind {
             RunKind::Short => {
@@ -377,6 +380,8 @@ pub fn make_spec(pool: &Pool, ix: &PoolIndex, seed: u64, kind: RunKind, allow_in
             }
         }
         depths.push(ds);
+        // the number of CPUs the caller's thread may use is the caller's business, not an input of the library
+        cpus.push(if f10 { [1u32, 1, 2, 3, 5][r.below(5)] } else { 0 });
         jumps.push(js);
         clients.push(calls);
         churn.push(ch);
@@ -398,5 +403,6 @@ pub fn make_spec(pool: &Pool, ix: &PoolIndex, seed: u64, kind: RunKind, allow_in
         faults_enabled,
         clock_jumps: jumps,
         stack_depths: depths,
+        cpu_limits: cpus,
     }
 }
